@@ -354,8 +354,11 @@ func (g *gate) halt() []Item {
 
 // ---- goroutine states ---------------------------------------------------------------------------------------------
 
-// parked counts goroutines whose stack contains fn and whose state starts with st ("chan send", "select").
-func parked(fn, st string) int {
+// gpat is a goroutine state pattern: a function on the stack and the prefix of the state ("chan send", "select").
+type gpat struct{ fn, st string }
+
+// parked counts, in ONE dump of all goroutine stacks, the goroutines matching each pattern.
+func parked(pats ...gpat) []int {
 	buf := make([]byte, 1<<20)
 	for {
 		n := runtime.Stack(buf, true)
@@ -365,7 +368,7 @@ func parked(fn, st string) int {
 		}
 		buf = make([]byte, 2*len(buf))
 	}
-	c := 0
+	c := make([]int, len(pats))
 	for _, g := range bytes.Split(buf, []byte("\n\n")) {
 		nl := bytes.IndexByte(g, '\n')
 		if nl < 0 {
@@ -373,11 +376,13 @@ func parked(fn, st string) int {
 		}
 		head := string(g[:nl])
 		i := strings.IndexByte(head, '[')
-		if i < 0 || !strings.HasPrefix(head[i+1:], st) {
+		if i < 0 {
 			continue
 		}
-		if bytes.Contains(g[nl:], []byte(fn)) {
-			c++
+		for k, p := range pats {
+			if strings.HasPrefix(head[i+1:], p.st) && bytes.Contains(g[nl:], []byte(p.fn)) {
+				c[k]++
+			}
 		}
 	}
 	return c
@@ -396,7 +401,7 @@ type brokenFlag struct{}
 // gateBroken: three waits have timed out in this process.
 var gateBroken brokenFlag
 
-func (brokenFlag) Load() bool  { return gateFailures.Load() >= 3 }
+func (brokenFlag) Load() bool { return gateFailures.Load() >= 3 }
 func (brokenFlag) Store(bool) { gateFailures.Add(1) }
 
 // waitFor polls a condition on goroutine states (no verdict depends on the time this takes, nor on whether it gives up).
